@@ -50,7 +50,7 @@ BOUNDS = {
     'thorough': [('alpha', 'sigma7', CFGS, 4, 2), ('alpha', 'sigma7_big', CFGS[1:], 5, 2)],
 }
 
-_std.install(globals(), 'C07', 'model_checking', [master.oracle_roundtrip, oracles.oracle_alloc, oracle_release], BOUNDS,
+_std.install(globals(), 'C07', 'model_checking', [master.oracle_roundtrip, master.oracle_live, oracles.oracle_alloc, oracle_release], BOUNDS,
              ['reference model: names carrying the same blob id are links; a blob dies when no tree entry and no boot entry refers to it',
               'space clause uses a 10-sector content so that directory/path-table shrinkage cannot be mistaken for the release of the content'],
              alphabets={'sigma7': lambda m: ops.sigma7(m, 'quick'), 'sigma7_big': lambda m: ops.sigma7(m, 'thorough')})
